@@ -211,6 +211,18 @@ func applyCloneMut(root any, n any, m CloneMut) (applied bool) {
 			x.Clear()
 		case "reverse":
 			x.Reverse()
+		case "mixedsort":
+			// Sort on a list of several kinds is documented to keep the elements of the first element's kind
+			// only; whatever it leaves, the list is an ordinary list afterwards (callers re-read the content)
+			if cnt == 0 {
+				return false
+			}
+			switch x.TypeOf(0) {
+			case at.TypeString, at.TypeInt, at.TypeFloat:
+				x.Sort()
+			default:
+				return false
+			}
 		case "sort":
 			if !listInSortDomain(x) {
 				return false
